@@ -415,6 +415,28 @@ func checkMaxUnit(c *Ctx, rule string) {
 				}
 			}
 		}
+		if !ok {
+			// symbolic form: value = S − (header + max extra) where S is the on-wire limit — loaded from the field, or the
+			// very value this function stores into the field
+			a := symAff(st.Val, 0)
+			if a.C == -(hdr+ext) && len(a.Terms) == 1 {
+				for sym, k := range a.Terms {
+					if k != 1 {
+						continue
+					}
+					if fv, _ := loadedField(sym); fv != nil && isField(fv, "internal/multiplex", "SessionConfig", "MsgOnWireSizeLimit") {
+						ok = true
+					}
+					allInstrs(st.Parent(), func(i ssa.Instruction) {
+						if s2, isSt := i.(*ssa.Store); isSt && stripConv(s2.Val) == stripConv(sym) {
+							if fv, _ := fieldVar(s2.Addr); fv != nil && isField(fv, "internal/multiplex", "SessionConfig", "MsgOnWireSizeLimit") {
+								ok = true
+							}
+						}
+					})
+				}
+			}
+		}
 		c.Check(ok, rule, "per-frame maximum = on-wire limit − header − max extra in "+shortFn(st.Parent()), c.at(st), up.String(),
 			"maxStreamUnitWrite is "+Expr(st.Val)+", not MsgOnWireSizeLimit − "+fmt.Sprint(hdr+ext)+": a maximal frame plus padding and tag can exceed the configured on-wire limit (or the oversize-refusal window shifts)")
 	}
